@@ -956,6 +956,41 @@ func (e *Engine) load(place *Term, ctx *Ctx, at ssa.Value) *Term {
 				}
 			}
 		}
+		if !killed && strings.HasPrefix(c.w.Kind, "havoc") && atInstr != nil && atInstr.Parent() != c.w.Fn {
+			// an environment call made inside a callee (a function literal) that the
+			// load's function calls only after the load has not happened yet
+			sites, all := 0, true
+			for _, b := range atInstr.Parent().Blocks {
+				for _, in := range b.Instrs {
+					ci, ok := in.(ssa.CallInstruction)
+					if !ok {
+						continue
+					}
+					var cal *ssa.Function
+					if sc := ci.Common().StaticCallee(); sc != nil {
+						cal = sc
+					} else if mc, ok := ci.Common().Value.(*ssa.MakeClosure); ok {
+						cal, _ = mc.Fn.(*ssa.Function)
+					}
+					if cal != c.w.Fn {
+						continue
+					}
+					sites++
+					if _, isCall := in.(*ssa.Call); !isCall || !before(atInstr, in) || inCycle(in.Block()) {
+						all = false
+					}
+				}
+			}
+			if sites > 0 && all && len(e.P.Callers[c.w.Fn]) <= sites {
+				if c.w.Fn.Parent() == atInstr.Parent() {
+					killed = true // a function literal of the load's function, called in place
+				} else if c.w.Fn.Parent() == nil && len(e.P.Callers[c.w.Fn]) == sites {
+					if ss, complete := e.stepSites(c.w.Fn); complete && len(ss) == 0 {
+						killed = true // a helper all of whose calls are these
+					}
+				}
+			}
+		}
 		if !killed && isInitStore(c.w) {
 			// an initialising store of a fresh object is overwritten by a later
 			// environment call that may write the whole object (the device filling a
@@ -1466,6 +1501,42 @@ func (e *Engine) loadIsAfter(w ssa.Instruction, atInstr ssa.Instruction, ctx *Ct
 	for c := ctx; c != nil; c = c.Parent {
 		if c.Call != nil && c.Call.Parent() == w.Parent() {
 			return before(w, c.Call)
+		}
+	}
+	// w sits in a function (or function literal) that the load's function calls
+	// before the load, and w is executed on every successful run of that callee
+	// (the same one level up the call string: a sibling callee that ran before
+	// the call leading to the load)
+	if atInstr != nil && e.dominatesSuccessExits(w) {
+		calledBefore := func(point ssa.Instruction) bool {
+			for _, b := range point.Parent().Blocks {
+				for _, in := range b.Instrs {
+					c, ok := in.(*ssa.Call)
+					if !ok {
+						continue
+					}
+					var cal *ssa.Function
+					if sc := c.Common().StaticCallee(); sc != nil {
+						cal = sc
+					} else if mc, ok := c.Common().Value.(*ssa.MakeClosure); ok {
+						cal, _ = mc.Fn.(*ssa.Function)
+					}
+					if cal == w.Parent() && before(in, point) {
+						return true
+					}
+				}
+			}
+			return false
+		}
+		if calledBefore(atInstr) {
+			return true
+		}
+		for c := ctx; c != nil; c = c.Parent {
+			if c.Call != nil && !c.Unknown {
+				if ci, ok := c.Call.(ssa.Instruction); ok && calledBefore(ci) {
+					return true
+				}
+			}
 		}
 	}
 	return false
